@@ -365,6 +365,33 @@ func decorate(r *hx.Rng, s *gq.SchemaDesc, maxLayers int) {
 			q.Fields = append(q.Fields, gq.FieldDesc{Name: "viaU2", Type: wrapDeep(r, "U2", 2)})
 		}
 	}
+	// late group: objects implementing an EXISTING interface that nothing refers to except a union / an object field /
+	// an interface field of three wrapper types which nothing refers to either. genCase withholds the implementers and
+	// appends (or supplies, or withholds) the wrappers: appending a non-object type must bring the new implementers into
+	// the possible types of the interfaces the schema already has.
+	ifaceNames := []string{}
+	for _, t := range s.Types {
+		if t.Kind == "INTERFACE" && t.Name != "ViaImpl" {
+			ifaceNames = append(ifaceNames, t.Name)
+		}
+	}
+	if len(ifaceNames) > 0 && r.Chance(1, 2) {
+		mk := func(name string) gq.TypeDesc {
+			o := gq.TypeDesc{Kind: "OBJECT", Name: name, IsTypeOf: true, Desc: pickDesc(r)}
+			for _, in := range ifaceNames {
+				if r.Chance(1, 2) || len(o.Interfaces) == 0 {
+					o.Interfaces = append(o.Interfaces, in)
+					o.Fields = append(o.Fields, s.Type(in).Fields...)
+				}
+			}
+			o.Fields = append(o.Fields, gq.FieldDesc{Name: "late", Type: "Int"})
+			return o
+		}
+		s.Types = append(s.Types, mk("LateA"), mk("LateB"), mk("LateC"),
+			gq.TypeDesc{Kind: "UNION", Name: "LateU", ResolveType: true, Members: []string{"LateA"}},
+			gq.TypeDesc{Kind: "OBJECT", Name: "LateHolder", IsTypeOf: true, Fields: []gq.FieldDesc{{Name: "h", Type: wrapDeep(r, "LateB", 3)}}},
+			gq.TypeDesc{Kind: "INTERFACE", Name: "LateI", ResolveType: true, Fields: []gq.FieldDesc{{Name: "x", Type: wrapDeep(r, "LateC", 2)}}})
+	}
 	// subscription root
 	if r.Chance(1, 4) {
 		sub := gq.TypeDesc{Kind: "OBJECT", Name: "S", Desc: pickDesc(r)}
@@ -437,6 +464,31 @@ func genCase(r *hx.Rng) caseT {
 		default: // everything appended after construction
 			c.Appended = append(c.Appended, n)
 		}
+	}
+	// late group (see decorate): implementers never supplied directly, wrappers mostly appended
+	if s.Type("LateU") != nil {
+		drop := func(xs []string) []string {
+			out := []string{}
+			for _, x := range xs {
+				if len(x) < 4 || x[:4] != "Late" {
+					out = append(out, x)
+				}
+			}
+			return out
+		}
+		c.Initial, c.Appended = drop(c.Initial), drop(c.Appended)
+		wrappers := []string{"LateU", "LateHolder", "LateI"}
+		shuffle(r, wrappers)
+		for _, wn := range wrappers {
+			switch r.Intn(5) {
+			case 0:
+				c.Initial = append(c.Initial, wn)
+			case 1: // withheld
+			default:
+				c.Appended = append(c.Appended, wn)
+			}
+		}
+		shuffle(r, c.Appended)
 	}
 	if c.Initial == nil {
 		c.Initial = []string{}
